@@ -211,24 +211,36 @@ func (e *env) chainOf(kind byte, a, n int) []*block.Block {
 	return append(out, br...)
 }
 
-// bigBranch mints a branch whose blocks each carry one transaction with `size` bytes of data (batch limit by bytes).
-func (e *env) bigBranch(a, n, size int) []*block.Block {
-	e.trunkTo(a)
-	parent := e.trunk[a]
+// dataBlocks mints, on top of parent, one block per entry of sizes carrying a transaction with that many bytes of
+// (zero) call data; 0 = an empty block. Signers are picked for the highest score, as on the heavy branch.
+func (e *env) dataBlocks(parent *block.Block, sizes []int, nonceBase uint64) []*block.Block {
 	var out []*block.Block
-	for i := 0; i < n; i++ {
-		to := e.net.Devs[9].Address
-		trx := tx.NewBuilder(tx.TypeLegacy).ChainTag(e.net.God.Repo.ChainTag()).
-			Clause(tx.NewClause(&to).WithData(make([]byte, size))).
-			Gas(uint64(21000 + 16000 + size*68 + 50000)).Expiration(1000000).Nonce(uint64(1000*a + i)).
-			BlockRef(tx.NewBlockRef(0)).GasPriceCoef(0).Build()
-		trx = tx.MustSign(trx, e.net.Devs[8].PrivateKey)
-		b, err := e.net.Mint(parent.Header().ID(), 1-(i%2), false, 0, trx)
+	for i, size := range sizes {
+		var txs []*tx.Transaction
+		if size > 0 {
+			to := e.net.Devs[9].Address
+			trx := tx.NewBuilder(tx.TypeLegacy).ChainTag(e.net.God.Repo.ChainTag()).
+				Clause(tx.NewClause(&to).WithData(make([]byte, size))).
+				Gas(uint64(200000 + size*4)).Expiration(1000000).Nonce(nonceBase + uint64(i)).
+				BlockRef(tx.NewBlockRef(0)).GasPriceCoef(0).Build()
+			txs = append(txs, tx.MustSign(trx, e.net.Devs[8].PrivateKey))
+		}
+		b, err := e.net.Mint(parent.Header().ID(), e.heavySigner(parent), false, 0, txs...)
 		must(err)
 		out = append(out, b)
 		parent = b
 	}
 	return out
+}
+
+// bigBranch mints a branch above trunk[a] whose n blocks each carry `size` bytes of data (batch limit by bytes).
+func (e *env) bigBranch(a, n, size int) []*block.Block {
+	e.trunkTo(a)
+	sizes := make([]int, n)
+	for i := range sizes {
+		sizes[i] = size
+	}
+	return e.dataBlocks(e.trunk[a], sizes, uint64(100000*a+size))
 }
 
 // ---- trace helpers ------------------------------------------------------------------------------------------
